@@ -82,7 +82,9 @@ type URIParamsLst struct {
 
 // Reset re-initializes the parsed parameter list
 func (l *URIParamsLst) Reset() {
-	for i := 0; i < l.PNo(); i++ {
+	// also reset the parameter in progress (Params[N]): an abandoned parse
+	// leaves it half-filled
+	for i := 0; i < len(l.Params) && i <= l.N; i++ {
 		l.Params[i].Reset()
 	}
 	t := l.Params
